@@ -358,6 +358,19 @@ func rulePanicAudit(c *Ctx, rule string) {
 					key := fmt.Sprintf("%s: string index %s[%s]", name, shortDesc(x.X), shortDesc(x.Index))
 					c.check(ok, rule, key, w.At(x), why, why+": an empty or short peer-supplied string makes this index panic (reached via "+chain+")")
 				}
+			case *ssa.BinOp:
+				// integer division / remainder: the divisor is provably non-zero (a non-zero constant on every alternative, or
+				// tested != 0 / > 0 on the way)
+				if x.Op != token.QUO && x.Op != token.REM {
+					return
+				}
+				if bt, isB := x.Type().Underlying().(*types.Basic); !isB || bt.Info()&types.IsInteger == 0 {
+					return
+				}
+				nSites++
+				ok, why := nonZeroDivisor(x.Y, x)
+				key := fmt.Sprintf("%s: division by %s", name, shortDesc(x.Y))
+				c.check(ok, rule, key, w.At(x), why, why+": an integer division by zero panics and crashes the process (reached via "+chain+")")
 			case *ssa.Slice:
 				if x.Low == nil && x.High == nil {
 					return
@@ -903,11 +916,24 @@ func ruleCloseSafety(c *Ctx, rule string) {
 	}
 }
 
-// latchCloseOK: close(avail) dominated by len(chans) == 1 after an append store, under the registry mutex.
+// latchCloseOK: close(avail) under the registry mutex, after the function's one append store, and exactly on the 0 -> 1
+// transition: dominated by len(chans) == 1 measured after the append, or by len(chans) == 0 measured before it
+// (`wasEmpty := len(c.chans) == 0; c.chans = append(…); if wasEmpty { close(c.avail) }`).
 func (c *Ctx) latchCloseOK(call ssa.CallInstruction) bool {
 	lf := c.W.Locks()
-	_, regMu := regNames(c.W)
+	regT, regMu := regNames(c.W)
 	if !lf.MustAt(call).has(regMu) {
+		return false
+	}
+	var app *ssa.Store
+	nApp := 0
+	for _, st := range storesToField(call.Parent(), FieldRef{regT, c.W.Roles().RegChans}) {
+		nApp++
+		if ac, ok := st.Val.(*ssa.Call); ok && calleeName(ac) == "builtin.append" {
+			app = st
+		}
+	}
+	if app == nil || nApp != 1 || !dominates(app, call) {
 		return false
 	}
 	one := false
@@ -918,7 +944,14 @@ func (c *Ctx) latchCloseOK(call ssa.CallInstruction) bool {
 		}
 		if lc, isC := x.(*ssa.Call); isC && calleeName(lc) == "builtin.len" {
 			if fr, _, isF := loadedField(lc.Call.Args[0]); isF && fr.Field == c.W.Roles().RegChans {
-				if k, isK := constInt(y); isK && k == 1 && op == token.EQL {
+				k, isK := constInt(y)
+				if !isK || op != token.EQL {
+					continue
+				}
+				if k == 1 && dominates(app, lc) {
+					one = true
+				}
+				if k == 0 && dominates(lc, app) {
 					one = true
 				}
 			}
@@ -998,4 +1031,87 @@ func ruleTimeoutApplied(c *Ctx, rule string) {
 		}
 	})
 	c.floor(rule, n, 1, "WithTimeout sites in the creation function")
+}
+
+// nonZeroDivisor: every alternative of v is a non-zero constant, or a dominating test excludes zero.
+func nonZeroDivisor(v ssa.Value, at ssa.Instruction) (bool, string) {
+	all := true
+	n := 0
+	for _, leaf := range phiLeaves(stripConv(v)) {
+		n++
+		if k, isK := constInt(stripConv(leaf)); !isK || k == 0 {
+			all = false
+		}
+	}
+	if all && n > 0 {
+		return true, "divisor is a non-zero constant on every alternative"
+	}
+	for _, f := range factsAt(at) {
+		x, op, y, ok := cmpFact(f)
+		if !ok || stripConv(x) != stripConv(v) {
+			continue
+		}
+		if k, isK := constInt(y); isK && k == 0 && (op == token.NEQ || op == token.GTR) {
+			return true, "divisor tested non-zero"
+		}
+	}
+	// unit, ok := table[c] / unitOf(c), used only where ok holds, with every entry of the table a non-zero constant
+	if ex, isEx := stripConv(v).(*ssa.Extract); isEx && ex.Index == 0 {
+		okKnown := false
+		for _, f := range boolFactsAt(at) {
+			if e2, isE := f.V.(*ssa.Extract); isE && e2.Tuple == ex.Tuple && e2.Index == 1 && f.True {
+				okKnown = true
+			}
+		}
+		if okKnown {
+			switch t := ex.Tuple.(type) {
+			case *ssa.Lookup:
+				if t.CommaOk {
+					mk, _ := origin(t.X).(*ssa.MakeMap)
+					if mk == nil && crossWorld != nil {
+						mk = crossWorld.readOnlyGlobalMap(t.X)
+					}
+					if mk != nil {
+						good, cnt := true, 0
+						for _, r := range *mk.Referrers() {
+							if mu, isMU := r.(*ssa.MapUpdate); isMU {
+								cnt++
+								if k, isK := constInt(mu.Value); !isK || k == 0 || (mu.Parent() == t.Parent() && !dominates(mu, t)) {
+									good = false
+								}
+							}
+						}
+						if good && cnt > 0 {
+							return true, "divisor is an entry of a constant table without zero entries, used under its ok result"
+						}
+					}
+				}
+			case *ssa.Call:
+				if h := helperCallee(t); h != nil && h.Signature.Results().Len() == 2 {
+					good, cnt := true, 0
+					for _, ret := range returnsOf(h) {
+						if len(ret.Results) != 2 {
+							good = false
+							continue
+						}
+						for _, okLeaf := range phiLeaves(ret.Results[1]) {
+							if isConstBool(okLeaf, false) {
+								continue
+							}
+							cnt++
+							for _, leaf := range phiLeaves(ret.Results[0]) {
+								if k, isK := constInt(stripConv(leaf)); !isK || k == 0 {
+									good = false
+								}
+							}
+						}
+					}
+					if good && cnt > 0 {
+						return true, "divisor is a non-zero constant whenever the table function reports ok, and is used under ok"
+					}
+				}
+			}
+		}
+	}
+	return false, "the divisor " + shortDesc(v) + " is not provably non-zero (a table lookup without its ok result, a parsed value)"
 }
